@@ -76,5 +76,10 @@ def run(ck):
                                 "gran": "line", "facts": {"block": False}})
     ck.run_and_validate(tasks_r, c05.TRACE, nontrivial=lambda t, r: True)
     ck.run_and_validate(tasks_t, c07.TRACE, nontrivial=lambda t, r: True)
+    if not quick:
+        # the repository's own test suite (real threads, real time) recorded through class-level wrappers and validated
+        # by TLC against spec/ApiObs.tla (order-only clauses)
+        from .. import suitecheck
+        suitecheck.run(ck, ("C06_",))
     ck.assumptions += ["a start between CancelCall and CancelRet is not judged (the statement says 'afterwards')",
                        "forwarding is demanded for every inner future that was live when cancel() was issued and did not finish by itself meanwhile"]
